@@ -476,15 +476,66 @@ def _sum(a, axis=None, **kw):
     return r.view(SArr) if isinstance(r, np.ndarray) else r
 
 
+class _Unsorted:
+    """placeholder for the sorted unique values of a symbolic np.unique: the targets only use the index output"""
+
+    def __getattr__(self, nm):
+        raise Unsupported("sorted unique values of symbolic rows are not modelled (only return_index is)")
+
+    def __getitem__(self, k):
+        raise Unsupported("sorted unique values of symbolic rows are not modelled (only return_index is)")
+
+
 @implements(np.unique)
-def _unique(a, *args, **kw):
+def _unique(a, return_index=False, return_inverse=False, return_counts=False, axis=None, **kw):
     aa = np.asarray(_strip(a), dtype=object)
-    if has_sym(aa):
-        raise Unsupported("np.unique on symbolic values")
-    try:
-        return np.unique(aa.astype(int) if all(float(x) == int(x) for x in aa.flat) else aa.astype(float), *args, **kw)
-    except (TypeError, ValueError):
-        return np.unique(aa, *args, **kw)
+    if not has_sym(aa):
+        try:
+            conc = aa.astype(int) if all(float(x) == int(x) for x in aa.flat) else aa.astype(float)
+        except (TypeError, ValueError):
+            conc = aa
+        return np.unique(conc, return_index=return_index, return_inverse=return_inverse, return_counts=return_counts, axis=axis, **kw)
+    if return_inverse or return_counts or not return_index:
+        raise Unsupported("np.unique on symbolic values: only return_index=True is modelled")
+    if axis is None:
+        rows = [[x] for x in aa.reshape(-1)]
+    elif axis == 0 and aa.ndim == 2:
+        rows = [list(r) for r in aa]
+    else:
+        raise Unsupported("np.unique on symbolic values: axis must be None or 0")
+    # first occurrence of every distinct row; equality of two rows forks (decided by the solver under the path condition)
+    firsts = []
+    for i, r in enumerate(rows):
+        dup = False
+        for j in firsts:
+            eq = None
+            for x, y in zip(r, rows[j]):
+                e = (x == y)
+                e = e if isinstance(e, SB) else SB(bz(bool(e)))
+                eq = e if eq is None else (eq & e)
+            if eq is None or bool(eq):
+                dup = True
+                break
+        if not dup:
+            firsts.append(i)
+
+    # numpy returns the indices in the order of the SORTED unique rows (lexicographic): insertion sort with forking comparisons
+    def lex_less(r1, r2):
+        for x, y in zip(r1, r2):
+            if bool(x < y):
+                return True
+            if bool(x > y):
+                return False
+        return False
+    order = []
+    for i in firsts:
+        pos = len(order)
+        for k, j in enumerate(order):
+            if lex_less(rows[i], rows[j]):
+                pos = k
+                break
+        order.insert(pos, i)
+    return _Unsorted(), np.array(order, dtype=int)
 
 
 def _argext(a, axis, better):
